@@ -93,7 +93,7 @@ def main():
         }],
         "checks": checks,
         "not_applicable": na,
-        "notes": "All checks run under two builds of coset (std feature off: all runs; on: a quarter of them again). Technique family: deterministic simulation with fault injection. coset has no threads, clock, I/O or shared state, so 15 of 20 properties (pure single-call input properties judged against RFCs) are answered not applicable rather than re-decided with another technique; see DESIGN.md sections 0, 1 and 6. C13 and C14 are disclosed weak fits. Known findings protocol: /verif/known_findings.txt.",
+        "notes": "All checks run under two builds of coset (std feature off, debug assertions and overflow checks on: all runs; std feature on, ordinary release profile: a quarter of them again). Technique family: deterministic simulation with fault injection. coset has no threads, clock, I/O or shared state, so 15 of 20 properties (pure single-call input properties judged against RFCs) are answered not applicable rather than re-decided with another technique; see DESIGN.md sections 0, 1 and 6. C13 and C14 are disclosed weak fits. Known findings protocol: /verif/known_findings.txt.",
     }
     json.dump(m, open("/verif/MANIFEST.json", "w"), indent=1)
     print("wrote MANIFEST.json with checks:", ", ".join(sorted(claimed)))
